@@ -1,24 +1,60 @@
-import FstVerif.Model.Build
+import FstVerif.Proofs.Minimal
+import FstVerif.Proofs.SpecParseBuild
 /-
-C12 — sharing. (`C12_no_dup`, `C12_trie_bound` are assembled from
-Proofs/Build.lean; here: the sentinel and cache-hit steps of `compile`.)
+C12 — equivalent sub-automata are shared: minimal whenever the node cache
+suffices. Statements here; proofs in Proofs/Minimal.lean (on top of
+Proofs/Build.lean). `evictions` counts occupied cache cells that were
+overwritten (the hook counter of the real registry is compared with it on
+every run). The clause "on realistic corpora most of the achievable sharing is
+realised" is a MEASUREMENT made by ./check on the shipped corpora.
 -/
-namespace Fst
+namespace Fst.Props
+open Fst
+
+/-- as long as nothing was evicted (and the cache has at least one cell), no two
+emitted nodes are equal — maps and sets alike, at any point of the build -/
+theorem C12_no_dup {s : BState} (h : Reachable s) (hnr : 1 ≤ s.reg.rows ∧ 1 ≤ s.reg.cols)
+    (hev : s.reg.evictions = 0) : (s.out.map (·.node)).Nodup := Fst.C12_no_dup h hnr hev
+
+theorem C12_no_dup_finished {s s' : BState} {root : Nat} (h : Reachable s)
+    (hnr : 1 ≤ s.reg.rows ∧ 1 ≤ s.reg.cols) (hf : s.finish = .ok (s', root))
+    (hev : s'.reg.evictions = 0) : (s'.out.map (·.node)).Nodup := C12_no_dup_finish h hnr hf hev
+
+/-- a set then compiles to the minimal acyclic DFA of its keys: two states (emitted nodes
+or the empty-final sentinel) with the same right language are the same state
+(Myhill–Nerode), the root spells the distinct keys, and no state is dead -/
+theorem C12_minimal_set (rows cols : Nat) (hr : 1 ≤ rows) (hc : 1 ≤ cols) (ks : List Key)
+    (h : SortedKeysLe ks) :
+    ∃ s s' root, addAll (BState.new rows cols) ks = .ok s ∧ s.finish = .ok (s', root) ∧
+      denOf (storeOf s') root = zeroKV (dedupKeys ks) ∧ (root = 0 ∨ ∃ n, (root, n) ∈ storeOf s') ∧
+      (∀ e ∈ s'.out, ∀ t ∈ e.node.trans, denOf (storeOf s') t.addr ≠ []) ∧
+      (s'.reg.evictions = 0 → ∀ a b, (a = 0 ∨ ∃ n, (a, n) ∈ storeOf s') →
+        (b = 0 ∨ ∃ m, (b, m) ∈ storeOf s') →
+        denOf (storeOf s') a = denOf (storeOf s') b → a = b) :=
+  Fst.C12_minimal_set rows cols hr hc ks h
+
+/-- every state is reachable from the root (the other half of minimality) -/
+theorem C12_all_reachable {s s' : BState} {root : Nat} (hr : Reachable s)
+    (hf : s.finish = .ok (s', root)) :
+    ∀ e ∈ s'.out, ReachFrom (storeOf s') root e.addr := finish_reach hr hf
+
+/-- for EVERY input and EVERY cache geometry (evictions or not) the number of emitted
+nodes never exceeds the number of distinct non-empty prefixes of the keys (+1 for the root) -/
+theorem C12_trie_bound (rows cols : Nat) (kvs : KV) {s s' : BState} {root : Nat}
+    (hb : insertAll (BState.new rows cols) kvs = .ok s) (hf : s.finish = .ok (s', root)) :
+    s'.out.length ≤ prefixCount (kvs.map (·.1)) + 1 := (Fst.C12_trie_bound rows cols kvs hb hf).2
+
+theorem C12_trie_bound_set (rows cols : Nat) (ks : List Key) {s s' : BState} {root : Nat}
+    (hb : addAll (BState.new rows cols) ks = .ok s) (hf : s.finish = .ok (s', root)) :
+    s'.out.length ≤ prefixCount ks + 1 := (Fst.C12_trie_bound_set rows cols ks hb hf).2
 
 /-- the empty final node is never emitted: it is the shared address 0 -/
 theorem C12_sentinel_shared (s : BState) (n : BNode) (h : isEmptyFinal n = true) :
-    s.compile n = .ok (s, EMPTY_ADDRESS) := by
-  simp [BState.compile, h]
+    s.compile n = .ok (s, EMPTY_ADDRESS) := by simp [BState.compile, h]
 
-/-- a cache hit emits nothing and returns the cached address -/
-theorem C12_hit_emits_nothing (s : BState) (n : BNode) (reg' : Registry) (a : Nat)
-    (h0 : isEmptyFinal n = false) (h : s.reg.entry n = (reg', .found a)) :
-    s.compile n = .ok ({ s with reg := reg' }, a) := by
-  simp [BState.compile, h0, h]
-
-/-- a cache of zero cells rejects everything (no sharing, no eviction) -/
+/-- the geometry hypothesis is needed: a cache of zero cells never evicts and shares nothing -/
 theorem C12_empty_cache (rows cols : Nat) (n : BNode) (h : rows = 0 ∨ cols = 0) :
     (Registry.new rows cols).entry n = (Registry.new rows cols, .rejected) := by
   simp [Registry.entry, Registry.new, h]
 
-end Fst
+end Fst.Props
